@@ -3,5 +3,6 @@ CONSTANT Depth = 4
 CONSTANT Shift = "4294966295"
 CONSTANT Win0 = 3
 CONSTANT Mms = 0
+CONSTANT Side = "client"
 INVARIANT Emit
 CHECK_DEADLOCK FALSE
